@@ -2,6 +2,7 @@ package props
 
 import (
 	"context"
+	"encoding/hex"
 	"fmt"
 	"strconv"
 	"strings"
@@ -21,6 +22,7 @@ import (
 	banktypes "github.com/cosmos/cosmos-sdk/x/bank/types"
 
 	opchildtypes "github.com/initia-labs/OPinit/x/opchild/types"
+	ophosttypes "github.com/initia-labs/OPinit/x/ophost/types"
 
 	"verifmc/engine"
 	"verifmc/ref"
@@ -124,7 +126,7 @@ func (in c07Input) String() string {
 
 var c07Rcpts = []string{"existing", "fresh", "malformed", "empty", "other-prefix", "blocked-module", "opchild-module"}
 var c07Amounts = []string{"0", "1", "18446744073709551615"}
-var c07Payloads = []string{"none", "random-bytes", "truncated-tx", "bad-signature", "wrong-sequence", "unroutable-msg", "signed[ok]", "signed[ok,fail]", "signed[fail]", "signed[panic]", "signed[gas-exhaust]", "signed[ok,ok]"}
+var c07Payloads = []string{"none", "random-bytes", "truncated-tx", "bad-signature", "wrong-sequence", "unroutable-msg", "signed[ok]", "signed[ok,fail]", "signed[fail]", "signed[panic]", "signed[gas-exhaust]", "signed[ok,ok]", "executor-signed[finalize-this-very-sequence]"}
 
 func c07Recipient(name string) string {
 	switch name {
@@ -159,9 +161,20 @@ func c07HookGas(name string) uint64 {
 }
 
 // payload builds the hook bytes for the state ctx (account number / sequence are read from it).
-func (cw *c07World) payload(ctx sdk.Context, name string) ([]byte, int) {
+func (cw *c07World) payload(ctx sdk.Context, name string, self *opchildtypes.MsgFinalizeTokenDeposit) ([]byte, int) {
 	if name == "none" {
 		return nil, 0
+	}
+	if name == "executor-signed[finalize-this-very-sequence]" {
+		// re-entrancy: the hook, signed by the bridge executor, relays the very deposit that is being
+		// processed (same sequence, no hook data). By then the sequence counts as processed, so the
+		// inner message is a no-op and the deposit is credited once.
+		ex := world.Addr("executor")
+		inner := *self
+		inner.Data = nil
+		acc := cw.w.AK.GetAccount(ctx, ex)
+		key := world.SecpKey("executor")
+		return cw.sign([]sdk.Msg{&inner}, key, key.PubKey(), acc.GetAccountNumber(), acc.GetSequence(), ctx.ChainID()), 0
 	}
 	if name == "random-bytes" {
 		return []byte{0xde, 0xad, 0xbe, 0xef, 0x01, 0x02}, 0
@@ -304,9 +317,10 @@ func (cw *c07World) exec(in c07Input, plan map[int]string, wantPrefix []string) 
 	if a, err := cw.w.AK.AddressCodec().StringToBytes(to); err == nil {
 		rcpt = a
 	}
-	data, oks := cw.payload(ctx, in.Payload)
 	before := cw.snap(ctx, rcpt, denom)
-	msg := opchildtypes.NewMsgFinalizeTokenDeposit(world.Addr("executor").String(), "l1sender", to, sdk.NewCoin(denom, amt), before.nextL1, 9, baseDenom, data)
+	msg := opchildtypes.NewMsgFinalizeTokenDeposit(world.Addr("executor").String(), "l1sender", to, sdk.NewCoin(denom, amt), before.nextL1, 9, baseDenom, nil)
+	data, oks := cw.payload(ctx, in.Payload, msg)
+	msg.Data = data
 	d0 := cw.w.Digest(ctx)
 	cw.limits = cw.limits[:0]
 	cw.f.Reset(plan)
@@ -565,6 +579,30 @@ func c07Run(rc *engine.RunCtx) *engine.Result {
 		}()
 	}
 	wg.Wait()
+	// the L1 side: everything the real L1 handler accepts must be finalizable
+	lw := newC07L1World()
+	l1Accepted, l1Refused := 0, 0
+	for _, lin := range c07L1Inputs() {
+		acc, v := lw.run(lin)
+		execs.Add(1)
+		if acc {
+			l1Accepted++
+		} else {
+			l1Refused++
+		}
+		if v != nil {
+			v.Path = []string{"L1|" + lin.Denom + "|" + lin.Amount + "|" + lin.To + "|" + lin.Data}
+			v.Tags["search"] = "l1-emittable"
+			mu.Lock()
+			if _, ok := known(v); !ok && len(res.Violations) < 200 {
+				res.Violations = append(res.Violations, v)
+			}
+			mu.Unlock()
+		}
+	}
+	res.Coverage["l1_emittable_deposits"] = map[string]any{"inputs": len(c07L1Inputs()), "accepted_by_l1_and_finalized_on_l2": l1Accepted, "refused_by_l1": l1Refused,
+		"menu": "denom ∈ {valid short, ibc hash path, '!', leading digit, 2 chars, with a space, empty, 129 chars, upper case, l2/ prefix} × amount ∈ {0, 1, 2^64-1, 2^64} × recipient ∈ {valid, empty, garbage, 200 non-ASCII bytes} × payload ∈ {none, bytes}; sent as raw message structs"}
+	res.Require(l1Accepted > 0 && l1Refused > 0, "the L1-emittable family is one-sided")
 	res.Coverage["exhaustive"] = !cut.Load()
 	res.Coverage["states"] = int64(len(full))
 	res.Coverage["transitions"] = execs.Load()
@@ -586,6 +624,101 @@ func c07Run(rc *engine.RunCtx) *engine.Result {
 		res.Require(outcomes[k] > 0, "outcome %s never occurred", k)
 	}
 	return res
+}
+
+// ---------------------------------------------------------------------------------------------
+// "every deposit L1 can emit": whatever the real L1 handler accepts and announces must be finalizable
+// on L2 at the expected sequence (otherwise the in-order rule stalls the bridge for ever).
+
+type c07L1Input struct {
+	Denom, Amount, To, Data string
+}
+
+var c07L1Denoms = []string{"uxx", "ibc/27394FB092D2ECCD56123C74F36E4C1F926001CEADA9CA97EA622B25F41E5EB2", "!", "1abc", "ab", "has space", "", strings.Repeat("a", 129), "UPPER", "l2/looks-like-an-l2-denom"}
+var c07L1Amounts = []string{"0", "1", "18446744073709551615", "18446744073709551616"}
+var c07L1Tos = []string{"valid", "empty", "garbage", "long-non-ascii"}
+var c07L1Datas = []string{"none", "bytes"}
+
+func c07L1Inputs() []c07L1Input {
+	var out []c07L1Input
+	for _, d := range c07L1Denoms {
+		for _, a := range c07L1Amounts {
+			for _, t := range c07L1Tos {
+				for _, dt := range c07L1Datas {
+					out = append(out, c07L1Input{d, a, t, dt})
+				}
+			}
+		}
+	}
+	return out
+}
+
+func (in c07L1Input) String() string {
+	d := in.Denom
+	if len(d) > 24 {
+		d = fmt.Sprintf("%s…(%d chars)", d[:12], len(d))
+	}
+	return fmt.Sprintf("L1Deposit(denom=%q,amount=%s,to=%s,data=%s)", d, in.Amount, in.To, in.Data)
+}
+
+type c07L1World struct {
+	l1 *world.L1
+	cw *c07World
+}
+
+func newC07L1World() *c07L1World {
+	huge, _ := math.NewIntFromString("100000000000000000000000")
+	coins := sdk.Coins{}
+	for _, d := range c07L1Denoms {
+		if sdk.ValidateDenom(d) == nil {
+			coins = coins.Add(sdk.NewCoin(d, huge))
+		}
+	}
+	l1 := world.NewL1(world.L1Options{Accounts: map[string]sdk.Coins{"proposer": nil, "challenger": nil, "creator": nil, "submitter": nil, "alice": coins}})
+	if r := l1.Deliver(l1.Ctx, ophosttypes.NewMsgCreateBridge(world.Addr("creator").String(), world.BridgeConfig("proposer", "challenger", 10*time.Second))); !r.OK() {
+		panic(r.Err)
+	}
+	return &c07L1World{l1: l1, cw: newC07World()}
+}
+
+// run executes one L1 deposit input; accepted reports whether L1 took it.
+func (lw *c07L1World) run(in c07L1Input) (accepted bool, v *engine.Violation) {
+	amt, _ := math.NewIntFromString(in.Amount)
+	to := map[string]string{"valid": world.Addr("bob").String(), "empty": "", "garbage": "cosmos1notanaddress", "long-non-ascii": strings.Repeat("ü/", 100)}[in.To]
+	var data []byte
+	if in.Data == "bytes" {
+		data = []byte{0, 1, 0xfe, 0xff}
+	}
+	c1, _ := lw.l1.Ctx.CacheContext()
+	msg := &ophosttypes.MsgInitiateTokenDeposit{Sender: world.Addr("alice").String(), BridgeId: 1, To: to, Amount: sdk.Coin{Denom: in.Denom, Amount: amt}, Data: data}
+	res := lw.l1.Deliver(c1, msg)
+	if !res.OK() {
+		return false, nil
+	}
+	evs := world.EventsOfType(res.Events, "initiate_token_deposit")
+	if len(evs) != 1 {
+		return true, viol("every-deposit-l1-emits-is-finalizable", "%s: L1 accepted it with %d deposit events", in, len(evs))
+	}
+	g := func(k string) string { x, _ := world.Attr(evs[0], k); return x }
+	eamt, ok := math.NewIntFromString(g("amount"))
+	if !ok {
+		return true, viol("every-deposit-l1-emits-is-finalizable", "%s: announced amount %q is not a number", in, g("amount"))
+	}
+	edata, _ := hex.DecodeString(g("data"))
+	cw := lw.cw
+	c2, _ := cw.w.Ctx.CacheContext()
+	next, _ := cw.w.K.GetNextL1Sequence(c2)
+	// what a faithful executor relays: exactly the announced fields (struct literal: no client-side checks)
+	l2msg := &opchildtypes.MsgFinalizeTokenDeposit{Sender: world.Addr("executor").String(), From: g("from"), To: g("to"),
+		Amount: sdk.Coin{Denom: g("l2_denom"), Amount: eamt}, Sequence: next, Height: 9, BaseDenom: g("l1_denom"), Data: edata}
+	r2 := cw.w.Deliver(c2, l2msg)
+	if !r2.OK() {
+		return true, tagged(viol("every-deposit-l1-emits-is-finalizable", "%s was accepted and announced by L1 (l1_denom=%q l2_denom=%q amount=%s), but its finalization at the expected sequence fails on L2: %v — every later deposit is stuck behind it", in, g("l1_denom"), g("l2_denom"), g("amount"), r2.Err), "denom", in.Denom, "amount", in.Amount)
+	}
+	if r := r2.Resp.(*opchildtypes.MsgFinalizeTokenDepositResponse); r.Result != opchildtypes.SUCCESS {
+		return true, viol("every-deposit-l1-emits-is-finalizable", "%s: finalization answered %s", in, r.Result)
+	}
+	return true, nil
 }
 
 func c07Encode(in c07Input, plan map[int]string) string {
@@ -624,6 +757,17 @@ func init() {
 		Replay: func(kind string, path []string) ([]string, *engine.Violation, error) {
 			if len(path) != 1 {
 				return nil, nil, fmt.Errorf("C07 replay expects one record")
+			}
+			if strings.HasPrefix(path[0], "L1|") {
+				p := strings.Split(path[0], "|")
+				if len(p) != 5 {
+					return nil, nil, fmt.Errorf("bad L1 replay record %q", path[0])
+				}
+				acc, v := newC07L1World().run(c07L1Input{p[1], p[2], p[3], p[4]})
+				if v != nil {
+					v.Path = path
+				}
+				return []string{fmt.Sprintf("accepted-by-l1=%v", acc)}, v, nil
 			}
 			in, plan, err := c07Decode(path[0])
 			if err != nil {
